@@ -45,7 +45,7 @@ def draw_axis(rng):
 
 
 def cases(tier, sd):
-    nb = 32 if tier == "quick" else 160
+    nb = 32 if tier == "quick" else 400
     per = 120 if tier == "quick" else 400
     return [dict(batch=i, seed=1000 * sd + i, n=per, consumers=(4 if tier == "quick" else 10))
             for i in range(nb)]
